@@ -7,6 +7,7 @@ use crate::loader::*;
 use crate::simfs::CorpusStore;
 use serde::{Deserialize, Serialize};
 use std::io::{Read, Write};
+use std::panic::{catch_unwind, AssertUnwindSafe};
 use std::process::{Command, Stdio};
 use std::rc::Rc;
 use vcommon::pool::Item;
@@ -68,6 +69,10 @@ pub fn compile_step(step: &Step) -> StepResult {
     rsass_verif_sync::time::sim::set(m, w, st);
     let reads0 = rsass_verif_sync::time::sim::reads();
     let it = &step.item;
+    if it.via_cwd {
+        let res = compile_in_cwd(it);
+        return StepResult { res, delivered: 0, clock_reads: rsass_verif_sync::time::sim::reads() - reads0 };
+    }
     let mock = it.files.iter().map(|(k, v)| (k.clone(), Rc::new(v.clone().into_bytes()))).collect();
     let o = run_job(&Job {
         store: Rc::new(CorpusStore { mock, cwd: it.cwd.clone() }),
@@ -80,6 +85,50 @@ pub fn compile_step(step: &Step) -> StepResult {
         budget: 200_000,
     });
     StepResult { res: o.res, delivered: o.delivered.len(), clock_reads: rsass_verif_sync::time::sim::reads() - reads0 }
+}
+
+/// The item's files written to a real directory of their own, `chdir` there, and compiled through
+/// `FsLoader::for_cwd()` (what `rsass::compile_scss` and `FsContext::for_cwd` use).
+fn compile_in_cwd(it: &Item) -> Res {
+    use rsass::input::{Context, FsLoader, SourceFile, SourceName};
+    static N: std::sync::atomic::AtomicU64 = std::sync::atomic::AtomicU64::new(0);
+    let k = N.fetch_add(1, std::sync::atomic::Ordering::Relaxed);
+    let top = std::path::PathBuf::from(format!("{}/.scratch/c05cwd", vcommon::verif_dir()));
+    let dir = top.join(format!("{}-{k}", std::process::id()));
+    let _ = std::fs::remove_dir_all(&dir);
+    if std::fs::create_dir_all(&dir).is_err() {
+        return Res::Panic("harness: cannot create the scratch directory".into());
+    }
+    for (p, text) in &it.files {
+        let full = dir.join(p);
+        if let Some(parent) = full.parent() {
+            let _ = std::fs::create_dir_all(parent);
+        }
+        let _ = std::fs::write(full, text);
+    }
+    let _ = std::fs::write(dir.join("input.scss"), &it.input);
+    if std::env::set_current_dir(&dir).is_err() {
+        return Res::Panic("harness: chdir failed".into());
+    }
+    let fmt = Fmt { compressed: it.fmt.compressed, precision: it.fmt.precision };
+    let r = catch_unwind(AssertUnwindSafe(|| {
+        let r = std::fs::File::open("input.scss")
+            .map_err(|e| rsass::Error::from(rsass::input::LoadError::Input("input.scss".into(), e)))
+            .and_then(|mut f| SourceFile::read(&mut f, SourceName::root("input.scss")).map_err(rsass::Error::from))
+            .and_then(|src| Context::for_loader(FsLoader::for_cwd()).with_format(fmt.format()).transform(src));
+        match r {
+            Ok(b) => Res::Ok(String::from_utf8_lossy(&b).into_owned()),
+            Err(e) => Res::Err { class: classify(&e), text: e.to_string() },
+        }
+    }));
+    // leave the directory before it is removed: the next compilation runs somewhere else
+    let _ = std::env::set_current_dir(&top);
+    let _ = std::fs::remove_dir_all(&dir);
+    COMPILED_HERE.store(true, std::sync::atomic::Ordering::Relaxed);
+    match r {
+        Ok(r) => r,
+        Err(_) => Res::Panic(last_panic()),
+    }
 }
 
 fn run_steps(steps: &[Step], mut emit: impl FnMut(&str)) {
